@@ -381,6 +381,15 @@ def controllerOp (inp impl : Json) : Except String Resp := do
   let inj : Option (Nat × String) ← match fldOpt inp "inject" with
     | some j => do pure (some ((← natF j "node"), (← strF j "kind")))
     | none => pure none
+  -- when the change arrives: during the first validation delay, or between listing the candidates and computing
+  -- the commands ("compute")
+  let atCompute : Bool ← match fldOpt inp "inject" with
+    | some j => do
+      match (← strD j "when") with
+      | "" | "validation" => pure false
+      | "compute" => pure true
+      | s => throw s!"bad injection point {s}"
+    | none => pure false
   let injPod (dnd : Ann) (ns : Nat) (app : Option Nat) : Pod :=
     { onNode := true, ns := ns, app := app, terminal := false, terminating := false, daemon := true, mirror := false,
       sts := false, tol := .none, dnd := dnd, start := some (floorSec now), notReady := false, delCost := none, prio := none }
@@ -388,32 +397,49 @@ def controllerOp (inp impl : Json) : Except String Resp := do
     match inj with
     | some (k, kind) =>
       if !injected then pure w
+      -- a method without a validation phase acts on the candidates it was given: of a change that races with the
+      -- pass it must (and does) only notice that the node started deleting (the in-memory state of the controller
+      -- itself); everything else is seen by the next pass
+      else if atCompute && !revalidates m && !["mark", "claim-delete", "claim-terminating"].contains kind then pure w
       else match kind with
         | "pod-dnd" => pure (if k == i then { w with pods := w.pods ++ [injPod .true_ 0 none] } else w)
         | "pdb-pod" =>
           -- the PDB is cluster wide; the pod it selects is on node k only
           let w' := { w with pdbs := w.pdbs ++ [{ ns := 5, sel := .app 9, allowed := 0, alwaysAllow := false }] }
           pure (if k == i then { w' with pods := w'.pods ++ [injPod .none 5 (some 9)] } else w')
-        | "mark" => pure (if k == i then { w with marked := true } else w)
+        | "mark" => pure (if k == i then LateDeletion.mark.apply w else w)
         | "node-dnd" =>
           pure (if k == i then { w with node := w.node.map (fun n => { n with md := { n.md with dnd := .true_ } }) } else w)
+        | "claim-delete" => pure (if k == i then LateDeletion.claimDelete.apply w else w)
+        | "claim-terminating" => pure (if k == i then LateDeletion.claimTerminating.apply w else w)
         | other => throw s!"bad injection {other}"
     | none => pure w
   let mut notSelected : List String := []
   let mut notAllowed : List String := []
+  -- classification of the violation for known_findings.json: "staticdrift-late-deletion" iff EVERY violation is of
+  -- that one class — a StaticDrift command contains the node that started deleting between the listing of the
+  -- candidates and the computation of the commands, and nothing else is wrong with that node or any other
+  let mut otherBad := false
+  let injNode : Option Nat := inj.map (·.1)
   for i in cands do
     match worlds[i]? with
     | none => notSelected := notSelected ++ [s!"node {i} does not exist"]
     | some w0 =>
-      for (w, whenTxt) in [(w0, "when the reconcile began"), (← after i w0, "after the change that arrived during validation")] do
-        if !selected w m then
-          notSelected := notSelected ++ [s!"node {i} is in a {m.name} command but the model does not select it {whenTxt}"]
+      let w1 ← after i w0
+      -- the model: listed in w0, then whatever the method looks at again in w1
+      if !mayCommand m w0 w1 then
+        notSelected := notSelected ++ [s!"node {i} is in a {m.name} command but the model rules that out (selected when the reconcile began={selected w0 m}, final look of the scheduling simulation={finalLook w1}, selected after the change={selected w1 m})"]
+      for (w, late, whenTxt) in [(w0, false, "when the reconcile began"), (w1, true, if atCompute then "after the change that arrived between listing the candidates and computing the command" else "after the change that arrived during validation")] do
         if wellFormed w && !allowed w m then
-          notAllowed := notAllowed ++ [s!"node {i} is a candidate of a {m.name} command although it is protected or ineligible {whenTxt} (nodeLevel={nodeLevelBlocker w} podLevel={podLevelBlocker w} override={mayOverride w m} consolidationOk={consolidationOk w m})"]
+          notAllowed := notAllowed ++ [s!"node {i} is a candidate of a {m.name} command although it is protected or ineligible {whenTxt} (nodeLevel={nodeLevelBlocker w} podLevel={podLevelBlocker w} override={mayOverride w m} consolidationOk={consolidationOk w m} deleting={deleting w})"]
+          let knownClass := late && atCompute && injected && m == .staticDrift && injNode == some i &&
+            allowed w0 m && LateDeletion.all.any (fun e => e.apply w0 == w1)
+          if !knownClass then otherBad := true
   let sel := (List.range worlds.length).filter (fun i => match worlds[i]? with | some w => selected w m | none => false)
+  let signature := if !notAllowed.isEmpty && !otherBad && notSelected.isEmpty then "staticdrift-late-deletion" else "controller"
   pure { allowed := some notSelected.isEmpty, spec := some notAllowed.isEmpty,
          why := "; ".intercalate (notAllowed ++ notSelected),
-         extra := some (jObj [("modelSelected", jArr (sel.map jNat))]) }
+         extra := some (jObj [("modelSelected", jArr (sel.map jNat)), ("signature", jStr signature)]) }
 
 def handle : Handler := fun op inp impl =>
   match op with
